@@ -516,6 +516,8 @@ class StmtMixin:
         return env
 
     def check_invs(self, lc, kind, node, ordinal):
+        if kind == 'inv-keep' and hasattr(node, 'body'):
+            self.loop_frame_check(node.body)
         if kind == 'inv-init':
             self.st.ghost[('loop_entry',)] = dict(self.frame.env)
         for nm, r in self.clauses(lc.get('inv', [])):
@@ -544,11 +546,96 @@ class StmtMixin:
         for g in lc.get('havoc_ghost', list(self.cur_contract.get('ghost', {}))):
             if g in self.st.ghost:
                 self.st.ghost[g] = self.havoc_like(self.st.ghost[g], g)
+        declared = set()
         for loc in lc.get('havoc', []):
             base, _, field = loc.rpartition('.')
             o = self.ev_spec(base, self.inv_env())
             h = self.st.heap[o.t]
             h.f[field] = self.havoc_like(h.f[field], field)
+            declared.add((o.t, field))
+        self.loop_frame_begin(body, declared)
+
+    # ---- inferred loop frame: fields of objects that exist before the loop and are WRITTEN by its body (directly or inside inlined callees)
+    # hold, at the head of an arbitrary iteration, whatever earlier iterations left there - not their value before the loop.  They are
+    # found by comparing the heap at the end of the body with the heap at its head; a written field that was not havoced is recorded for
+    # this loop and the path is executed again (RetryPath) with the field havoced.  Written lists / dicts must be declared (havoc_lists).
+    def _loop_key(self, body):
+        return (getattr(self.frame, 'fn_key', None), body[0].lineno, body[0].col_offset)
+
+    def loop_frame_begin(self, body, declared):
+        lk = self._loop_key(body)
+        table = self.__dict__.setdefault('loop_frames', {})
+        for (oid, field) in sorted(table.get(lk, ()), key=str):
+            h = self.st.heap.get(oid) if isinstance(self.st.heap, dict) else (self.st.heap[oid] if oid < len(self.st.heap) else None)
+            if isinstance(h, HObj) and field in h.f and (oid, field) not in declared:
+                h.f[field] = self.havoc_like(h.f[field], field)
+                declared.add((oid, field))
+            elif isinstance(h, HList) and not isinstance(h, HSeqList) and isinstance(field, tuple) and field[1] < len(h.items):
+                h.items[field[1]] = self.havoc_like(h.items[field[1]], f'item{field[1]}')
+                declared.add((oid, field))
+        snap = {}
+        ids = self.st.heap.keys() if isinstance(self.st.heap, dict) else range(len(self.st.heap))
+        for oid in ids:
+            h = self.st.heap[oid]
+            if isinstance(h, HObj):
+                snap[oid] = ('obj', dict(h.f))
+            elif isinstance(h, HSeqList):
+                snap[oid] = ('seqlist', h.seq)
+            elif isinstance(h, HList):
+                snap[oid] = ('list', list(h.items))
+            elif isinstance(h, HDict):
+                snap[oid] = ('dict', dict(h.d), list(h.sym) if getattr(h, 'sym', None) else [])
+        self.st.ghost[('loop_frame', lk)] = (snap, declared)
+
+    @staticmethod
+    def _same_value(a, b):
+        if a is b:
+            return True
+        if a.k != b.k:
+            return False
+        if a.k == 'none':
+            return True
+        if a.k in ('obj', 'list', 'dict', 'cls', 'enum'):
+            return a.t == b.t
+        if z3.is_expr(a.t) and z3.is_expr(b.t):
+            return z3.eq(a.t, b.t)
+        if a.k == 'tuple':
+            return len(a.t) == len(b.t) and all(StmtMixin._same_value(x, y) for x, y in zip(a.t, b.t))
+        if a.k == 'const':
+            try:
+                return type(a.t) is type(b.t) and a.t == b.t
+            except Exception:
+                return False
+        return False
+
+    def loop_frame_check(self, body):
+        lk = self._loop_key(body)
+        rec = self.st.ghost.get(('loop_frame', lk))
+        if rec is None:
+            return
+        snap, declared = rec
+        grew = False
+        for oid, ent in snap.items():
+            h = self.st.heap[oid]
+            if ent[0] == 'obj' and isinstance(h, HObj):
+                for field, v0 in ent[1].items():
+                    v1 = h.f.get(field)
+                    if v1 is None or self._same_value(v0, v1) or (oid, field) in declared:
+                        continue
+                    self.__dict__.setdefault('loop_frames', {}).setdefault(lk, set()).add((oid, field))
+                    grew = True
+            elif ent[0] == 'list' and isinstance(h, HList) and not isinstance(h, HSeqList):
+                if len(h.items) != len(ent[1]):
+                    raise Unsupported('the loop body changes the length of a list that exists before the loop and is not declared in havoc_lists')
+                for i_, (x, y) in enumerate(zip(ent[1], h.items)):
+                    if not self._same_value(x, y) and (oid, ('item', i_)) not in declared:
+                        self.__dict__.setdefault('loop_frames', {}).setdefault(lk, set()).add((oid, ('item', i_)))
+                        grew = True
+            elif ent[0] == 'dict' and isinstance(h, HDict):
+                if set(h.d) != set(ent[1]) or any(not self._same_value(ent[1][k_], h.d[k_]) for k_ in ent[1]):
+                    raise Unsupported('the loop body changes a dict that exists before the loop (not supported by the loop encoding)')
+        if grew:
+            raise RetryPath()
 
     def havoc_like(self, v, hint):
         if v.k == 'int':
